@@ -111,6 +111,9 @@ def check(prop, tier, seed):
     # reproduce, minimise, write replay files
     for key, (b, r) in sorted(viol_first.items()):
         handle_violation(rep, prop, cfg, exes, disabled, seed, tier, key, b, r)
+    golden = None
+    if prop == 'C07':
+        golden = check_golden(rep, seed, tier, thorough)
 
     samples = []
     b0 = cfg['builds'][0][0]
@@ -149,6 +152,8 @@ def check(prop, tier, seed):
         components=checks.COMPONENTS,
         exhaustive=False,
     )
+    if golden is not None:
+        rep.coverage['golden_files'] = golden
     zero = [k for k in ('self_copy_assign_nonempty', 'assign_into_moved_from') if prop == 'C12' and not probes.get(k)]
     if zero:
         rep.coverage['warnings'] = ['reach probe stayed at zero: ' + ', '.join(zero)]
@@ -192,3 +197,59 @@ def handle_violation(rep, prop, cfg, exes, disabled, seed, tier, key, b, r):
         f.write('build %s\nexpect %s\n' % (b, key))
         f.write('# found by seed %d run %d; minimised with %d replays; detail: %s\n' % (seed, r['run'], used, (d3 or '')[:300]))
     rep.add_violation(key, (d3 or r.get('detail', ''))[:300], path)
+
+
+def check_golden(rep, seed, tier, thorough):
+    """Durable files written by the pinned revision, read by the current tree."""
+    import hashlib
+    import re
+    import subprocess
+    gdir = os.path.join(checks.VERIF, 'golden')
+    # the committed files must be the ones that were generated
+    bad = []
+    for line in open(os.path.join(gdir, 'SHA256SUMS')):
+        h, name = line.split()
+        name = name.lstrip('*')
+        try:
+            if hashlib.sha256(open(os.path.join(gdir, name), 'rb').read()).hexdigest() != h:
+                bad.append(name)
+        except OSError:
+            bad.append(name)
+    if bad:
+        rep.nonrepro.append('golden files altered or missing: %s' % ', '.join(bad[:5]))
+        return dict(error='golden set damaged')
+    out = dict(files=0, loads=0, redumps=0, builds=[])
+    for b in ('rel-plain', 'dbg-asan'):
+        exe, failed = build.build_world('golden', b, ['core', 'io'], thorough=thorough)
+        p = subprocess.run([exe, '--verify', gdir, '--seed', str(seed), '--tier', tier], capture_output=True, text=True,
+                           errors='replace')
+        files = set()
+        done = False
+        for line in p.stdout.splitlines():
+            m = re.match(r'GOLD (\S+) VIOL key=(\S+) :: (.*)', line)
+            if m:
+                key = m.group(2)
+                path = checks.replay_path('C07', key)
+                with open(path, 'w') as f:
+                    f.write('world golden\nfile %s\nbuild %s\nexpect %s\n# %s\n' % (m.group(1), b, key, m.group(3)))
+                rep.add_violation(key, '%s: %s' % (m.group(1), m.group(3)), path)
+            m = re.match(r'GOLD (\S+) ok', line)
+            if m:
+                files.add(m.group(1))
+            if line.startswith('STATS '):
+                import json
+                st = json.loads(line[6:])
+                out['loads'] += st.get('golden_loads', 0)
+                out['redumps'] += st.get('golden_redumps', 0)
+            if line.startswith('DONE'):
+                done = True
+        if not done:
+            cls, detail = run.classify_death(p.returncode, p.stderr, p.stdout.splitlines()[-20:])
+            key = '%s:-:golden' % cls
+            path = checks.replay_path('C07', key)
+            with open(path, 'w') as f:
+                f.write('world golden\nbuild %s\nexpect %s\n# %s\n' % (b, key, detail))
+            rep.add_violation(key, 'golden verification died: ' + detail, path)
+        out['files'] = max(out['files'], len(files))
+        out['builds'].append(b)
+    return out
